@@ -118,9 +118,9 @@ pub struct VerCircuit {
     pub rhs: MsmVal,
 }
 
-type Config = (NativeConfig, P2RDecompositionConfig, ForeignEccConfig<C>, PoseidonConfig<F>);
+pub(crate) type Config = (NativeConfig, P2RDecompositionConfig, ForeignEccConfig<C>, PoseidonConfig<F>);
 
-fn configure(meta: &mut ConstraintSystem<F>) -> Config {
+pub(crate) fn configure(meta: &mut ConstraintSystem<F>) -> Config {
     let nb_advice_cols = nb_foreign_ecc_chip_columns::<F, C, C, NG>();
     let nb_fixed_cols = NB_ARITH_COLS + 4;
     let advice_columns: Vec<_> = (0..nb_advice_cols).map(|_| meta.advice_column()).collect();
@@ -151,7 +151,7 @@ fn configure(meta: &mut ConstraintSystem<F>) -> Config {
     (native_config, core_decomp_config, curve_config, poseidon_config)
 }
 
-const MAX_BIT_LEN: usize = 8;
+pub(crate) const MAX_BIT_LEN: usize = 8;
 
 impl Circuit<F> for VerCircuit {
     type Config = Config;
@@ -212,15 +212,15 @@ pub struct VerObserved {
     pub sat: bool,
 }
 
-pub fn run(circuit: &VerCircuit, k: u32, com: &[F], plain: &[F]) -> Result<MockProver<F>, String> {
+pub fn run<Ci: Circuit<F>>(circuit: &Ci, k: u32, com: &[F], plain: &[F]) -> Result<MockProver<F>, String> {
     MockProver::run(k, circuit, vec![com.to_vec(), plain.to_vec()]).map_err(|e| format!("{e:?}"))
 }
 
-pub fn observe(circuit: &VerCircuit, k: u32, com: &[F], plain: &[F]) -> Result<VerObserved, String> {
+pub fn observe<Ci: Circuit<F>>(circuit: &Ci, k: u32, com: &[F], plain: &[F]) -> Result<VerObserved, String> {
     let prover = run(circuit, k, com, plain)?;
     Ok(VerObserved { plain: bound_rows(&prover, 1), committed: bound_rows(&prover, 0), sat: prover.verify().is_ok() })
 }
 
-pub fn verdict(circuit: &VerCircuit, k: u32, com: &[F], plain: &[F]) -> Result<bool, String> {
+pub fn verdict<Ci: Circuit<F>>(circuit: &Ci, k: u32, com: &[F], plain: &[F]) -> Result<bool, String> {
     Ok(run(circuit, k, com, plain)?.verify().is_ok())
 }
